@@ -574,11 +574,15 @@ func (s *Sim) park(id int, st uint32, on unsafe.Pointer) {
 
 //go:norace
 func (s *Sim) callerSite(skip int) string {
-	var pcs [8]uintptr
+	var pcs [16]uintptr
 	n := runtime.Callers(skip, pcs[:])
 	fr := runtime.CallersFrames(pcs[:n])
 	site := ""
-	for k := 0; k < 5; k++ {
+	depth := 5
+	if s.spinTracing > 0 {
+		depth = 12
+	}
+	for k := 0; k < depth; k++ {
 		f, more := fr.Next()
 		fn := shortFn(f.Function)
 		if len(fn) > 6 && (fn[:6] == "simrt." || hasPrefix(fn, "simsync.") || hasPrefix(fn, "simatomic.")) {
@@ -964,41 +968,78 @@ func (s *Sim) run(horizon time.Duration) string {
 	}
 }
 
+// spinSummary names the spin by the function that occurs in most of the sampled call stacks; among equally
+// frequent ones the outermost (the loop that contains the others).
+//
 //go:norace
 func (s *Sim) spinSummary() string {
-	// most frequent innermost function among the traced sites
-	best, bestN := "", 0
+	type cnt struct {
+		fn    string
+		n     int
+		depth int
+	}
+	var cs []cnt
 	for i := 0; i < s.nspin; i++ {
-		fi := innermostFn(s.spinSites[i])
-		n := 0
-		for j := 0; j < s.nspin; j++ {
-			if innermostFn(s.spinSites[j]) == fi {
-				n++
+		fns := siteFns(s.spinSites[i])
+		for d, f := range fns {
+			dup := false
+			for _, g := range fns[:d] {
+				if g == f {
+					dup = true
+				}
+			}
+			if dup || hasPrefix(f, "simrt.") || hasPrefix(f, "runtime.") {
+				continue
+			}
+			found := false
+			for k := range cs {
+				if cs[k].fn == f {
+					cs[k].n++
+					cs[k].depth += d
+					found = true
+				}
+			}
+			if !found {
+				cs = append(cs, cnt{f, 1, d})
 			}
 		}
-		if n > bestN {
-			best, bestN = fi, n
+	}
+	best := -1
+	for k := range cs {
+		if best < 0 || cs[k].n > cs[best].n || (cs[k].n == cs[best].n && cs[k].depth > cs[best].depth) {
+			best = k
 		}
 	}
-	return best
+	if best < 0 {
+		return "?"
+	}
+	return cs[best].fn
 }
 
-func innermostFn(site string) string {
-	// site = "pkg.fn:line<pkg.fn:line..." ; return first fn without line
-	end := len(site)
-	for i := 0; i < len(site); i++ {
-		if site[i] == '<' {
-			end = i
+func siteFns(site string) []string {
+	var out []string
+	for len(site) > 0 {
+		end := len(site)
+		for i := 0; i < len(site); i++ {
+			if site[i] == '<' {
+				end = i
+				break
+			}
+		}
+		part := site[:end]
+		for i := len(part) - 1; i >= 0; i-- {
+			if part[i] == ':' {
+				part = part[:i]
+				break
+			}
+		}
+		out = append(out, part)
+		if end >= len(site) {
 			break
 		}
+		site = site[end+1:]
 	}
-	s := site[:end]
-	for i := len(s) - 1; i >= 0; i-- {
-		if s[i] == ':' {
-			return s[:i]
-		}
-	}
-	return s
+	return out
 }
 
 func (s *Sim) TraceLog() []string { return s.Log[:s.nlog] }
